@@ -183,7 +183,9 @@ def _nullable_non_object_ref(node: Any, context: ParsingContext) -> Mapping[str,
     if any(k in node for k in structural):
         return None
     target = context.raw_spec_schemas.get(str(only["$ref"]).split("/")[-1])
-    if not isinstance(target, Mapping) or target.get("type") in (None, "object") or "properties" in target:
+    # (an enum without a type keyword is no object either: its kind comes from its values)
+    typeless_enum = isinstance(target, Mapping) and "type" not in target and isinstance(target.get("enum"), list)
+    if not isinstance(target, Mapping) or "properties" in target or (target.get("type") in (None, "object") and not typeless_enum):
         return None
     rewritten = {k: v for k, v in node.items() if k != "allOf"}
     rewritten["anyOf"] = [only]
@@ -651,10 +653,12 @@ def _parse_schema(
                     first_val = enum_values[0]
                     if isinstance(first_val, str):
                         current_final_type = "string"
+                    elif isinstance(first_val, bool):  # (before the numbers: a bool is an int)
+                        current_final_type = "boolean"
+                    elif all(isinstance(v, int) and not isinstance(v, bool) for v in enum_values if v is not None):
+                        current_final_type = "integer"
                     elif isinstance(first_val, (int, float)):
                         current_final_type = "number"
-                    elif isinstance(first_val, bool):
-                        current_final_type = "boolean"
                     else:
                         # Fallback to object for complex enum values
                         current_final_type = "object"
